@@ -114,7 +114,7 @@ impl Engine for C01 {
         if index % 3 == 0 && bytes.len() < (1 << 20) {
             frontends.push(if index % 2 == 0 { "cli-proc-file" } else { "cli-proc-stdin" }.to_string());
         }
-        if tier == Tier::Thorough && index % 40 == 7 && std::str::from_utf8(&bytes).is_ok() {
+        if (index % 40 == 7 || (tier == Tier::Quick && index % 20 == 3)) && std::str::from_utf8(&bytes).is_ok() {
             frontends.push("server-proc".into());
         }
         let scn = Scn {
@@ -468,9 +468,17 @@ impl Engine for C01 {
                     let srv = guard.as_mut().unwrap();
                     // (two of three requests go on the wire in an unusual but valid way: other
                     // Content-Types, none, non-ASCII parameters, the body in several pieces)
-                    set_http_style(if scn.entropy % 3 == 0 { 0 } else { scn.entropy | 1 });
-                    let r = srv.post(&scn.doc.0, if scn.cfg.add_metadata { Some(true) } else { None }, Duration::from_secs(8));
-                    set_http_style(0);
+                    let am = if scn.cfg.add_metadata { Some(true) } else { None };
+                    let mut r = srv.post(&scn.doc.0, am, Duration::from_secs(8));
+                    // and in every wire style (all Content-Types, body whole and in pieces): each
+                    // must be answered too
+                    if r.is_some() && scn.doc.0.len() < 100_000 {
+                        let port = srv.port;
+                        res.stats.probe("request_repeated_in_every_wire_style");
+                        if http_post_sweep(port, &scn.doc.0, am, Duration::from_secs(8)).iter().any(|x| x.is_none()) {
+                            r = None;
+                        }
+                    }
                     res.stats.evaluations += 1;
                     res.stats.frontend("server-proc");
                     match r {
